@@ -158,10 +158,10 @@ def run(ctx):
     ctx.rule = ("(a) Context.__repr__ on random texts with tabs, CR, non-ASCII and comments x every position class; (b) one fault of "
                 "%d kinds planted at a random line after 0-10 filler lines (tabs, non-ASCII comments) in the main file, a second linked "
                 "file or an included file: the first error report must name that file and start at the planted token; every report of "
-                "every run must lie inside its file with start <= end; (c) the same through --report-format=bare. distinct = distinct "
+                "every run must lie inside its file with start <= end; (c) the same through --report-format=bare; (d) the gutter line and highlight column of --report-format=graphical. distinct = distinct "
                 "(text, position) / (kind, role, layout)" % len(FAULTS))
     # ---------------------------------------------------------------- (a) line/column arithmetic
-    alphabet = ["a", "b", " ", "\t", "\n", "\n", "\r", ";", "я", "☃", "\U0001F600", ",", "1"]
+    alphabet = ["a", "b", " ", "\t", "\n", "\n", "\r", ";", "я", "☃", "\U0001F600", ",", "1", "\x0c", "\x0b", "\x1c", "\x85", "\u2028"]
     reqs, jobs = [], []
     for _ in range(3000 if ctx.thorough else 600):
         n = rng.randint(0, 60)
@@ -294,6 +294,48 @@ def run(ctx):
             want = scan(ftext, off)
             if not m or os.path.basename(m.group(1)) != "m.mac" or (int(m.group(2)), int(m.group(3))) != want:
                 ctx.violation("the bare report does not print the planted token's line:column", inp, expected="m.mac:%d:%d" % want, observed=lines[0][:120])
+        finally:
+            impl.drop_scratch(d)
+
+
+    # ---------------------------------------------------------------- (d) the graphical format: it computes line and column
+    # on its own (GraphicalHandler.__call__), so it is compared with the planted position as well: the gutter number of the
+    # highlighted source line and the terminal column of the highlight (tabs expanded to four spaces)
+    for fault in (FAULTS if ctx.thorough else rng.sample(FAULTS, 12)):
+        d = impl.scratch_dir()
+        try:
+            ftext, off = build_file(rng, fault, 1)
+            with open(os.path.join(d, "m.mac"), "w", encoding="utf-8") as f:
+                f.write(ftext)
+            res = impl.run_cli(["m.mac", "--report-format=graphical"], cwd=d)
+            ctx.case(("graphical", fault[0], ftext))
+            inp = {"kind": fault[0], "source": ftext, "format": "graphical"}
+            blocks = [b for b in res.stderr.split("\n\n") if "\x1b[91mError\x1b[0m in " in b or "\x1b[91mCritical" in b or "rror" in b.split("\n")[0]]
+            if res.exit == 0 or not blocks:
+                ctx.violation("the graphical format did not report the planted fault", inp, expected="Error in <file>: ...", observed=(res.exit, res.stderr[:200]))
+                continue
+            first = blocks[0]
+            # every highlighted part of the first report: (gutter line, column); the columns of vertical connectors
+            # (two characters each, printed between the gutter and the source line) shift the terminal column
+            got = []
+            for ln in first.split("\n"):
+                cols = re.findall(r"\x1b\[(\d+)G\x1b\[48;5;52m", ln)
+                if not cols:
+                    continue
+                g = re.match(r"\x1b\[92m\s*(\d+)\x1b\[0m \x1b\[38;5;242m│ \x1b\[38;5;11m([^\x1b]*)\x1b\[0m", ln)
+                for c in cols:
+                    got.append((int(g.group(1)) if g else None, int(c) - 9 - (len(g.group(2)) if g else 0) + 1))
+            if not got:
+                ctx.count("graphical: first report has no highlighted part (not compared)")
+                continue
+            ctx.count("graphical-format")
+            ctx.count("graphical: %s highlighted part%s" % (("one", "") if len(got) == 1 else ("several", "s")))
+            want = scan(ftext, off)
+            head = first.split("\n")[0]
+            n_lines = ftext.count("\n") + 1
+            if "m.mac" not in head or want not in got or any(l is None or not 1 <= l <= n_lines or c < 1 for l, c in got):
+                ctx.violation("the graphical report does not highlight the planted token's line:column (or highlights outside the file)", inp,
+                              expected={"file": "m.mac", "line_col": want, "lines": n_lines}, observed={"header": re.sub(r"\x1b\[[0-9;]*m", "", head)[:120], "highlighted": got})
         finally:
             impl.drop_scratch(d)
 
